@@ -448,11 +448,12 @@ def descend (root : ReqView) (path : List (Bool × Bool × Bool)) : ReqView :=
 /-- the address every internal sub-pipeline writer reports (`127.0.0.255`). -/
 def internalAddr : Addr := ⟨.v4, 0x7f0000ff⟩
 
-/-- options on the refresh query that reaches upstream: the queued copy of the
-triggering client's request (as the cache saw it, i.e. after edns) runs through
-edns again in the prefetch sub-pipeline, now with the internal writer as client. -/
+/-- options on the refresh query that reaches upstream: `processPrefetch` drops
+every subnet option from its copy of the triggering client's request (as the
+cache saw it, i.e. after edns); the copy then runs through edns again in the
+prefetch sub-pipeline, with the internal writer as client. -/
 def refreshForwarded (p : Option Policy) (queuedReqOpts : List Opt) : List Opt :=
-  setEdns0 p (some internalAddr) queuedReqOpts
+  setEdns0 p (some internalAddr) (stripECS queuedReqOpts)
 
 /-- `Store.ReplaceIfCurrent`: the replacement takes over the key, CD partition and
 scope of the entry that claimed the refresh; the response's own SCOPE is not read
